@@ -152,7 +152,7 @@ CODEC_ASSUME = [
 def codec_family(ctx, n_quick, n_thorough, mc_cfgs_quick=("default",), extra_cov=None):
     ctx.build()
     cfgs = list(mc_cfgs_quick) if ctx.quick else ["default", "pt", "pa", "both"]
-    cases, st = fam_codec.mc_codec(ctx.work, cfgs, True)
+    cases, st = fam_codec.mc_codec(ctx.work, cfgs, True, sweep="SweepQuick" if ctx.quick else "SweepThorough")
     ctx.add_mc(st)
     log("design check MCCodec: %d states, %d cases emitted" % (st["distinct"], len(cases)))
     p1 = os.path.join(ctx.work, "mc_cases.ndjson")
